@@ -9,6 +9,7 @@ import Hive.Gen.C06_Skel
 import Hive.Proofs.TypedCode
 import Hive.Proofs.TypedUpgrade
 import Hive.Proofs.TypedOwn
+import Hive.Proofs.TypedDirty
 /-!
 # C06 — TypedValue / TypedStore are transparent, error-faithful typed views
 
@@ -139,6 +140,32 @@ theorem C06_failure_atomic (C : Codec V) (s : St V) (op : Op V) (F : Faults) :
   intro f v hop hv
   subst hop
   exact notChanged_compute C s f F v hv
+
+/-- **A store whose failing write took effect all the same** (`stepD`: a timeout after the write went through).  The
+clause "a failure leaves the store unchanged" is then out of the wrapper's hands; what `TypedValue` itself guarantees, in
+any state and for every operation and fault vector: same result, same calls and same cache as over an atomic store; any
+failed call is reported with its own error and the **cache is untouched**; the raw bytes differ from the atomic case only
+when the failed call was the operation's store write, and are then exactly what the successful write leaves. -/
+theorem C06_dirty_store_failure (C : Codec V) (s : St V) (op : Op V) (F : Faults) :
+    ((stepD C s op F).out = (step C s op F).out ∧ (stepD C s op F).tr = (step C s op F).tr ∧
+     (stepD C s op F).st.cv = (step C s op F).st.cv ∧ (stepD C s op F).st.ch = (step C s op F).st.ch) ∧
+    (∀ e ∈ (stepD C s op F).tr, e.res = .fail →
+      (stepD C s op F).out = .err (errOf e.call) ∧ (stepD C s op F).st.cv = s.cv ∧ (stepD C s op F).st.ch = s.ch) ∧
+    (writeFailed (step C s op F).tr = false → stepD C s op F = step C s op F) ∧
+    (writeFailed (step C s op F).tr = true →
+      (stepD C s op F).st.store = (step C s op (clearWriteFault s op F)).st.store) :=
+  have h := stepD_facts C s op F
+  ⟨⟨h.1, h.2.1, h.2.2.1, h.2.2.2.1⟩, fun e he hf => stepD_failure C s op F e he hf, h.2.2.2.2.1, h.2.2.2.2.2⟩
+
+/-- Witness that such a store breaks cache coherence and transparency (so the property presupposes atomic store failures):
+after `Set 5`, a `Set 7` whose `kv.Set` reports failure but wrote: the error is reported, the cache still holds 5, the raw
+key holds 7 — the next `Get` answers 5, a fresh object answers 7. -/
+theorem C06_dirty_store_witness :
+    let s1 := (step codec64 (fresh none) (.set 5) {}).st
+    let r := stepD codec64 s1 (.set 7) { kv1 := true }
+    r.out = .err .kv ∧ r.st.cv = some 5 ∧ r.st.store = codec64.enc 7 ∧
+    (step codec64 r.st .get {}).out = .val 5 ∧
+    (step codec64 (step codec64 r.st .reopen {}).st .get {}).out = .val 7 := by decide
 
 /-- Injected faults at the positions an operation reaches are hit (and then reported by
 `C06_failure_atomic`): the cache-independent cases. -/
